@@ -29,10 +29,10 @@ PKG=$(echo "$DEMO" | grep -o '\./[a-z/]*' | tail -1)
 cp "$SD"/*_test.go "$WT/$PKG/" 2>/dev/null
 echo "== demo with change: $DEMO"
 ( eval "$DEMO" ) >/tmp/demo_with_$$.log 2>&1; RC_WITH=$?
-git stash -q -- $(git diff --name-only) 
+git apply -R "$SD/patch.diff"
 echo "== demo without change"
 ( eval "$DEMO" ) >/tmp/demo_without_$$.log 2>&1; RC_WITHOUT=$?
-git stash pop -q
+git apply "$SD/patch.diff"
 echo "build=$BUILD suite=$SUITE demo_with_rc=$RC_WITH demo_without_rc=$RC_WITHOUT"
 if [ "$BUILD" = ok ] && [ "$SUITE" = ok ] && [ $RC_WITH -ne 0 ] && [ $RC_WITHOUT -eq 0 ]; then
   D=/verif/seeded/$NAME; mkdir -p $D
